@@ -190,10 +190,20 @@ def case_extrapolate(fam, rep):
     def fn(run):
         import felupe as fem
         rng = rng_for(run.seed, "C19", "extrapolate", fam, rep)
-        mesh, _ = gen.build_mesh(fam, ["undistorted", "distorted", "affine"][rep % 3], rng)
+        quadratic = fam in ("quad9", "hexahedron27")
+        mesh, _ = gen.build_mesh(fam, ["undistorted", "distorted", "affine"][rep % 3] if not quadratic else ["undistorted", "affine"][rep % 2], rng)
         reg = gen.make_region(fam, mesh)
         d = mesh.dim
         p = [Poly(rng, d, monomials_tensor(d, 1)) for _ in range(3)]  # multilinear
+        if quadratic:
+            # bi/tri-quadratic templates (three points per axis, VTK node order): a multilinear polynomial on a parallelepiped grid
+            for k in range(3):
+                f = p[k]
+                fld = fem.Field(reg, dim=1, values=f(mesh.points).reshape(-1, 1))
+                got = fem.tools.extrapolate(fld.interpolate(), reg).ravel()
+                run.compare("post.extrapolate", "template=%s clause=reproduces-multilinear-polynomial" % fam, maxabs(got - f(mesh.points)) / max(maxabs(f(mesh.points)), 1e-300), 1e-11,
+                            "extrapolate() does not reproduce a multilinear polynomial on a %s region" % fam, unit="extrapolate:" + fam, config=(fam, "extrapolate", k))
+            return
         # multilinear in the reference coordinates = any FE function of the (bi/tri)linear element; sample one given on the points
         for shape in ((), (3,), (3, 3)):
             nodal, vq = fe_function(rng, reg, mesh, fam, shape)
@@ -378,6 +388,19 @@ def case_stress_and_views(kind, fam, rep):
                 run.compare("post.view", "view=solid key=Equivalent of %s Stress clause=cell-mean" % st,
                             maxabs(np.asarray(cds["Equivalent of %s Stress" % st]).ravel() - vm) / maxabs(vm), 1e-12,
                             "view cell data 'Equivalent of %s Stress' is not the mean von Mises stress" % st, unit="view:Equivalent of %s Stress" % st)
+        # point data of the named stress / strain (project=...): the projected Voigt components
+        if kind == "3d" and P.shape[0] == 3 and not ni and field.region.quadrature.npoints >= mesh.cells.shape[1]:
+            sig = tau_ref / J
+            vsp = solid.view(project=fem.topoints)
+            refv = fem.topoints(np.array([sig[i, j] for i, j in VOIGT]), field.region)
+            run.compare("post.view", "view=solid[project] key=Cauchy Stress clause=point-values", maxabs(np.asarray(vsp.mesh.point_data["Cauchy Stress"]) - refv) / maxabs(refv), 1e-12,
+                        "view point data 'Cauchy Stress' (project=topoints) are not the projected Voigt components of the Cauchy stress", unit="view:Cauchy Stress:points",
+                        config=("view-project-stress", kind))
+            vfp = field.view(project=fem.topoints)
+            Evq = np.array([np.moveaxis(E, (0, 1), (-2, -1))[i, j] * (1 if i == j else 2) for i, j in VOIGT])  # (6, q, c)
+            refe = fem.topoints(Evq, field.region)
+            run.compare("post.view", "view=field[project] key=Logarithmic Strain clause=point-values", maxabs(np.asarray(vfp.mesh.point_data["Logarithmic Strain"]) - refe) / max(maxabs(refe), 1e-300), 1e-10,
+                        "view point data 'Logarithmic Strain' (project=topoints) are not the projected Voigt components (engineering shear)", unit="view:Logarithmic Strain:points")
         # ---- the job's export functions
         from felupe.mechanics import _job as JB
         run.compare("post.job", "function=deformation_gradient clause=cell-mean", maxabs(JB.deformation_gradient(field)[0] - ref) / maxabs(ref), 1e-13,
@@ -425,7 +448,7 @@ def cases(tier, seed):
     for fam in ("quad", "quad8", "quad9", "hexahedron", "hexahedron20", "hexahedron27", "triangle6", "tetra10", "triangleMINI", "tetraMINI"):
         for rep in range(reps):
             out.append(("project:%s:%d" % (fam, rep), case_project(fam, rep)))
-    for fam in ("quad", "hexahedron"):
+    for fam in ("quad", "hexahedron", "quad9", "hexahedron27"):
         for rep in range(3 * reps):
             out.append(("extrapolate:%s:%d" % (fam, rep), case_extrapolate(fam, rep)))
     for fam in ("quad", "hexahedron", "hexahedron20", "tetra", "triangle6"):
@@ -446,10 +469,10 @@ def cases(tier, seed):
 
 SPEC = {
     "required_units": ["project:reproduction:quad", "project:reproduction:hexahedron", "project:reproduction:tetra10", "project:integral:quad9",
-                       "project:reproduction:tetraMINI", "extrapolate:quad", "extrapolate:hexahedron", "extrapolate:lagrange:order<=2", "topoints:average", "topoints:mean",
+                       "project:reproduction:tetraMINI", "extrapolate:quad", "extrapolate:hexahedron", "extrapolate:quad9", "extrapolate:hexahedron27", "extrapolate:lagrange:order<=2", "topoints:average", "topoints:mean",
                        "project:length-scale:0.004", "project:length-scale:250", "flags:extrapolate:average=False", "flags:extrapolate:mean=True", "flags:extrapolate:mean=True,average=False", "flags:project:average=False",
                        "flags:project:dV", "flags:project:mean=True", "flags:project:simplex", "flags:topoints:average=False", "flags:topoints:mean=True",
-                       "flags:topoints:single-point", "stress:no-field-argument", "view:Stress[first Piola-Kirchhoff]", "view:Deformation Gradient:points", "view:Deformation Gradient:single-cell",
+                       "flags:topoints:single-point", "stress:no-field-argument", "view:Stress[first Piola-Kirchhoff]", "view:Deformation Gradient:points", "view:Deformation Gradient:single-cell", "view:Cauchy Stress:points", "view:Logarithmic Strain:points",
                        "stress:kirchhoff", "stress:cauchy", "stress:cauchy:after-state-change", "stress:kirchhoff:after-state-change", "view:Deformation Gradient", "view:Logarithmic Strain",
                        "view:Principal Values of Logarithmic Strain", "view:Displacement", "view:Cauchy Stress", "view:Kirchhoff Stress",
                        "view:Principal Values of Cauchy Stress", "view:Equivalent of Cauchy Stress", "job:Deformation Gradient",
